@@ -9,29 +9,9 @@ leaves open (`order`, `σ`, `scan`, …), so the correspondence can demand EQUAL
 -/
 namespace Parmcb
 
-/-- insertion into a list of out-edges sorted by the rank `ord` of the edge id -/
-def insertByOrd (ord : List Nat) (p : Nat × Nat) : List (Nat × Nat) → List (Nat × Nat)
-  | [] => [p]
-  | q :: r => if ord.getD p.1 0 < ord.getD q.1 0 then p :: q :: r else q :: insertByOrd ord p r
-
-/-- `out_edges(v)` of the graph in ForestIndex coordinates in the order the CALLER inserted the edges: `ord[e]` = the
-caller's id of edge `e` (`fi.reverse`).  (The model graph lists out-edges by edge id; the C++ iterates them in insertion
-order of the caller's graph, whatever numbering the ForestIndex gives them.) -/
-def adjOrd (g : Graph) (ord : List Nat) (v : Nat) : List (Nat × Nat) := (g.adj v).foldr (insertByOrd ord) []
-
-/-- `sgAdjE` with the out-edges of every vertex in the order `ord` -/
-def sgAdjEOrd (g : Graph) (ord : List Nat) (S hidden : List Nat) : Array (List (Nat × Int × Nat)) :=
-  Array.ofFn (n := 2 * g.n) fun x =>
-    let v := if x.val < g.n then x.val else x.val - g.n
-    let s := decide (x.val < g.n)
-    (adjOrd g ord v).filterMap fun (e, w) =>
-      if hidden.contains e then none
-      else if w = v then none
-      else some (sgNode g.n w (if S.contains e then !s else s), g.weight e, e)
-
 def searchSignedH (g : Graph) (ord : List Nat) (S hidden : List Nat) (s : Nat) (sPos : Bool) (t : Nat) (tPos : Bool)
     (limit : Option Int) : Cyc (List Nat) :=
-  biSearchH (sgAdjEOrd g ord S hidden) g.weight limit (sgNode g.n s sPos) (sgNode g.n t tPos)
+  biSearchH (sgAdjE g ord S hidden) g.weight limit (sgNode g.n s sPos) (sgNode g.n t tPos)
 
 def allVerticesLoopH (g : Graph) (ord : List Nat) (S : List Nat) : Cyc (List Nat) :=
   seqMin (fun v L => searchSignedH g ord S [] v true v false L) 0 g.n
